@@ -106,10 +106,29 @@ func Config(accessor bool, log *CallLog) jsonpath.Config {
 			})
 		}
 	}
+	AddDecoys(&c)
 	if accessor {
 		c.SetAccessorMode()
 	}
 	return c
+}
+
+// AddDecoys registers, AFTER the real functions and with the OTHER kind, names that differ from the registry's only in
+// case. No generated path mentions them, so they must never run: a Config that aliases or case-folds names would call
+// them (their result is a marker no oracle expects).
+func AddDecoys(c *jsonpath.Config) {
+	for name := range filterImpl {
+		name := name
+		up := strings.ToUpper(name[:1]) + name[1:]
+		c.SetAggregateFunction(up, func(vs []interface{}) (interface{}, error) { return "DECOY:" + up, nil })
+		c.SetFilterFunction(strings.ToUpper(name), func(v interface{}) (interface{}, error) { return "DECOY:" + name, nil })
+	}
+	for name := range aggImpl {
+		name := name
+		up := strings.ToUpper(name[:1]) + name[1:]
+		c.SetFilterFunction(up, func(v interface{}) (interface{}, error) { return "DECOY:" + up, nil })
+		c.SetAggregateFunction(strings.ToUpper(name), func(vs []interface{}) (interface{}, error) { return "DECOY:" + name, nil })
+	}
 }
 
 // ConfigScramble is Config(accessor, nil) whose aggregate functions overwrite the slice they were
